@@ -308,6 +308,8 @@ def install(eng):
         res = []
         for ty in ts:
             name = ty.name if isinstance(ty, (TypeVal, ClassVal)) else getattr(ty, 'name', None)
+            if name is None and getattr(ty, 'dotted', None) in ('numbers.Real', 'numbers.Number'):
+                name = ty.dotted.split('.')[-1]
             res.append(inst(eng, v, name))
         return one(st, simp(b_or(*res)))
 
@@ -318,6 +320,8 @@ def install(eng):
             return b_and(b_not(v.isnone), inst(eng, v.val, name))
         if name == 'int':
             return is_intlike(v) or is_boollike(v) if not isinstance(v, fractions.Fraction) else False
+        if name in ('Real', 'Number'):       # numbers.Real / numbers.Number: every int, bool, float (and Fraction)
+            return is_intlike(v) or is_boollike(v) or is_reallike(v) or isinstance(v, fractions.Fraction)
         if name == 'float':
             return is_reallike(v)
         if name == 'bool':
